@@ -214,4 +214,63 @@ theorem s2_leadsR : LeadsR s2 (runOps sR opsR) := LeadsR.restart 1 0 sR_is_resta
 example : s2.activeI.length = 1 ∧ (runOps sR opsR).activeI.length = 2 ∧
     (s2.activeI.all fun r => !(runOps sR opsR).activeI.contains r) = true := by decide
 
+/-- C12 over restarts: the module context of `snM1` has batch 1 in flight; the chain is restarted there. The batch is
+    counted as cancelled (`k = 1`), no callback was invoked (`n = 0`), the context comes back with batch counter 1 and
+    its batch completed: 0 + 1 + 0 = 1, as `C12.callbacks_match_batches_across_restarts` says. -/
+def sMR : State := (restart snM1.1 9 0).getD snM1.1
+theorem sMR_is_restart : restart snM1.1 9 0 = some sMR := by
+  have h : (restart snM1.1 9 0).isSome = true := by decide
+  cases hr : restart snM1.1 9 0 with
+  | none => rw [hr] at h; cases h
+  | some x => simp [sMR, hr]
+theorem creachR_of_wfAll {cfg : Config} {p : Params} {h0 t0 : Int} :
+    ∀ (ops : List Op) (s : State) (n k : CtxId → Nat), CReachR cfg p h0 t0 s n k → wfAll s ops = true →
+      CReachR cfg p h0 t0 (runC (s, n) ops).1 (runC (s, n) ops).2 k := by
+  intro ops
+  induction ops with
+  | nil => intro s n k hs _; exact hs
+  | cons op t ih =>
+    intro s n k hs hw
+    simp only [wfAll, Bool.and_eq_true, decide_eq_true_eq] at hw
+    exact ih _ _ _ (CReachR.step op hs hw.1) hw.2
+theorem snM1_counted : CReachR cfg0 p0 1 0 snM1.1 snM1.2 (fun _ => 0) :=
+  creachR_of_wfAll _ _ _ _ CReachR.init (by decide)
+theorem sMR_counted : CReachR cfg0 p0 1 0 sMR snM1.2 (fun c => 0 + cancelled snM1.1 c) :=
+  CReachR.restart 9 0 snM1_counted sMR_is_restart
+example : cancelled snM1.1 ⟨8, 0⟩ = 1 ∧ snM1.2 ⟨8, 0⟩ = 0 ∧
+    (get sMR.ctxs ⟨8, 0⟩).map (fun x => (x.batch, x.bstate, x.state)) = some (1, .completed, .paused) := by decide
+/-- … and the chain goes on: the module starts its context again, batch 2 is issued and answered — one callback, one
+    cancelled batch, two batches started -/
+def opsMR : List Op := [.modstart ⟨8, 0⟩ "u", .endblock 5,
+  .respond { ctx := ⟨8, 0⟩, batch := 2, height := 9, index := 0 } "p" 200 .valid]
+def snMR2 : State × (CtxId → Nat) := runC (sMR, snM1.2) opsMR
+example : CReachR cfg0 p0 1 0 snMR2.1 snMR2.2 (fun c => 0 + cancelled snM1.1 c) :=
+  creachR_of_wfAll _ _ _ _ sMR_counted (by decide)
+example : snMR2.2 ⟨8, 0⟩ = 1 ∧ (get snMR2.1.ctxs ⟨8, 0⟩).map (fun x => (x.batch, x.bstate)) = some (2, .completed) := by decide
+
+/-- C10 over restarts: the observed chain `sg3` (two batches tracked) is restarted; the observer forgets the record, the
+    flag stays down; the consumer starts the context again and the next batch is tracked anew -/
+def sgR : State := (restart sg3.1 20 0).getD sg3.1
+theorem sgR_is_restart : restart sg3.1 20 0 = some sgR := by
+  have h : (restart sg3.1 20 0).isSome = true := by decide
+  cases hr : restart sg3.1 20 0 with
+  | none => rw [hr] at h; cases h
+  | some x => simp [sgR, hr]
+theorem greachR_of_wfAll {cfg : Config} {p : Params} {h0 t0 : Int} :
+    ∀ (ops : List Op) (s : State) (g : Ghost), GReachR cfg p h0 t0 s g → wfAll s ops = true →
+      GReachR cfg p h0 t0 (runG (s, g) ops).1 (runG (s, g) ops).2 := by
+  intro ops
+  induction ops with
+  | nil => intro s g hs _; exact hs
+  | cons op t ih =>
+    intro s g hs hw
+    simp only [wfAll, Bool.and_eq_true, decide_eq_true_eq] at hw
+    exact ih _ _ (GReachR.step op hs hw.1) hw.2
+theorem sgR_observed : GReachR cfg0 p0 1 0 sgR ⟨[], sg3.2.bad⟩ :=
+  GReachR.restart 20 0 (GReach.toR (greach_of_wfAll _ _ _ GReach.init (by decide))) sgR_is_restart
+def sgR2 : State × Ghost := runG (sgR, ⟨[], sg3.2.bad⟩) [.start ⟨7, 0⟩ "u", .endblock 5]
+example : GReachR cfg0 p0 1 0 sgR2.1 sgR2.2 := greachR_of_wfAll _ _ _ sgR_observed (by decide)
+example : get sgR2.2.last ⟨7, 0⟩ = some 20 ∧ sgR2.2.bad = false ∧
+    (get sgR2.1.ctxs ⟨7, 0⟩).map (·.batch) = some 3 := by decide
+
 end SM.NonVacuity
